@@ -3,15 +3,17 @@ package ref
 import (
 	"encoding/json"
 	"fmt"
-	"math/rand"
 	"strings"
 	"unicode/utf8"
 )
 
 // PrintOpts controls spelling variation.  The zero value prints a compact
 // canonical form.
+// Rander is the randomness the printer needs.
+type Rander interface{ Intn(n int) int }
+
 type PrintOpts struct {
-	Rand *rand.Rand // nil: deterministic canonical spelling
+	Rand Rander // nil: deterministic canonical spelling
 	// WS: probability (0..100) of inserting whitespace at a token gap
 	WS int
 	// Unicode: probability of using × ÷ − spellings
